@@ -2467,7 +2467,10 @@ func (c *Compiler) BuildBaseType(
 	typ2 := refType.ChildByType(parse.NodeTyp)
 	tdef := refType.Def()
 	thasdef := refType.HasDef()
-	return c.BuildType(cfgNode, typ2, tdef, thasdef, schema.Current), tname, false
+	// The references made by the typedef's own type statement are made by
+	// a definition of the typedef's status (a deprecated typedef may be
+	// derived from a deprecated one).
+	return c.BuildType(cfgNode, typ2, tdef, thasdef, c.getStatus(refType, schema.Current)), tname, false
 }
 
 func (c *Compiler) CheckMinMax(n parse.Node, min, max uint) {
